@@ -157,6 +157,16 @@ class RetractionState(CommonMixin):
                 cmd += " " + params
 
             returnCommands.append(cmd)
+        elif (not position.E_AXIS.absoluteMode):
+            # Relative extruder positioning: the E value of the command is an offset, so the
+            # extruder position doesn't need to be (and must not be) expressed as a coordinate
+            eAxis = position.E_AXIS
+            returnCommands.append(
+                "G1 F{f} E{e}".format(
+                    e=formatNumber(-self.extrusionAmount * direction / eAxis.unitMultiplier),
+                    f=formatNumber(self.feedRate / eAxis.unitMultiplier)
+                )
+            )
         else:
             amount = self.extrusionAmount * direction
             eAxis = position.E_AXIS
